@@ -347,6 +347,11 @@ class Interp(object):
             raise ValueError(kind)
 
     def op_tb(self, node, ctx, pending):
+        if node.get("outside"):
+            # nothing to log: what is written is unspecified, but the call must not raise
+            self.stat("traceback-without-exception")
+            self.api("write_traceback", write_traceback, exc_info=(None, None, None))
+            return
         n = self.next_n()
         handling = getattr(self, "handling", None)
         if node.get("current") and handling:
@@ -1474,7 +1479,7 @@ def program_features(program):
 TYPE_NAMES = ["app:a", "app:b", "app:c", "sys:x", "t", ""]
 
 
-def programs(max_nodes=12, faults=False, remote=True, kinds=None, msg_kinds=None, raises=True, preserve=True, max_depth=5, reenter=True, names=None, values=None, remote_weight=1, min_depth=1, extras=True):
+def programs(max_nodes=12, faults=False, remote=True, kinds=None, msg_kinds=None, raises=True, preserve=True, max_depth=5, reenter=True, names=None, values=None, remote_weight=1, min_depth=1, extras=True, tb_outside=False):
     """
     Strategy for programs.  Depth is drawn first so that deep nestings are
     as likely as shallow ones; `max_nodes` bounds the body sizes.
@@ -1494,6 +1499,9 @@ def programs(max_nodes=12, faults=False, remote=True, kinds=None, msg_kinds=None
     # exceptions whose class has an extractor registered out of the box (errno) are drawn more often
     rz = st.one_of(exc_idx, exc_idx, st.sampled_from([EXC_TABLE.index(OSError), EXC_TABLE.index(FileNotFoundError)])).map(lambda i: {"op": "raise", "exc": i})
     leaf_options = [msg, msg, msg, msg, msg, msg, msg, msg, tb, tb]
+    if tb_outside:
+        # write_traceback() although no exception is being handled (only where the forest is not compared)
+        leaf_options.append(st.just({"op": "tb", "exc": 0, "outside": True}))
     if extras:
         leaf_options.append(st.integers(0, 2).map(lambda k: {"op": "reseed", "seed": k}))
         leaf_options.append(
